@@ -343,6 +343,7 @@ func (s *session) run(o runOpts) int {
 	// hash-consed terms carry solver-side definition state: start every run afresh
 	internSmall = map[termKey]*Term{}
 	internBig = map[string]*Term{}
+	memoCache = map[string]string{}
 	ex := &Explorer{solver: solver, maxPaths: o.maxPaths, maxSteps: o.maxSteps, maxConcretize: 64, nextSample: 1}
 	ex.deadline = start.Add(time.Duration(o.timeout) * time.Second)
 	ex.known = loadKnown(o.known, o.property, o.harness)
@@ -351,6 +352,7 @@ func (s *session) run(o runOpts) int {
 	}
 	it := s.it
 	it.ex = ex
+	it.targetPkg = full
 	ex.it = it
 	it.funcsRepo = map[string]int{}
 	it.funcsStd = map[string]int{}
@@ -405,6 +407,8 @@ func (s *session) run(o runOpts) int {
 		it.mstate.lastNow = nil
 		it.mstate.manualClock = false
 		it.mstate.preemptive = false
+		it.mstate.lockOrder = nil
+		it.lockLog = nil
 		it.mstate.universe = nil
 		it.mstate.fakeDigests = 0
 		it.curFrame = nil
